@@ -49,6 +49,7 @@ fi
 
 # 4. Go driver against the current working tree of the repository
 ( cd driver && sed "s#@REPO@#$REPO#" go.mod.tmpl > go.mod && cp "$REPO/go.sum" go.sum \
-  && timeout 600 go build -o driver . >../work/driver-build.log 2>&1 ) || { echo "BUILD: driver does not build against $REPO (see work/driver-build.log)"; status=4; }
+  && timeout 600 go build -o driver . >../work/driver-build.log 2>&1 \
+  && timeout 900 go build -race -o driver-race . >>../work/driver-build.log 2>&1 ) || { echo "BUILD: driver does not build against $REPO (see work/driver-build.log)"; status=4; }
 
 exit $status
